@@ -21,8 +21,17 @@ DOCS.append("\n\n\n" + DOCS[4] + "\n")   # 5: document 4 behind three blank line
 RAWNL = '<mjml><mj-body><mj-raw><p>a%sb</p></mj-raw><mj-section><mj-column><mj-text>x</mj-text></mj-column></mj-section></mj-body></mjml>'
 DOCS.append(RAWNL % "\n")       # 6 / 7: differ only in LF vs CRLF inside raw text: different HTML
 DOCS.append(RAWNL % "\r\n")
-DOCS.append(                      # 8: components that resolve inheritance / mixed content at render time
-    '<mjml><mj-body><mj-section><mj-column><mj-accordion padding="7px" container-background-color="#eee"><mj-accordion-element><mj-accordion-title>T</mj-accordion-title>'
+SOC = ('<mj-social mode="horizontal" align="left" icon-size="24px" font-size="12px" color="#111111" border-radius="4px" inner-padding="5px" '
+       'line-height="20px" text-padding="3px 5px" padding="9px 20px" container-background-color="#fafafa">' +
+       "".join('<mj-social-element name="%s" href="https://x/%d" alt="a%d" title="t%d" target="_blank" color="#22%04d" font-size="1%dpx" icon-size="2%dpx" '
+               'padding="%dpx" text-padding="2px %dpx" border-radius="%dpx" background-color="#33%04d" css-class="se%d">E%d</mj-social-element>'
+               % (("facebook", "twitter", "github")[i % 3], i, i, i, i, i % 10, i % 10, 1 + i % 5, i % 7, i % 4, i, i, i) for i in range(12)) +
+       '</mj-social>')
+DOCS.append(                      # 8: components that resolve inheritance / mixed content at render time; attribute-heavy elements;
+                                  #    an mj-class whose name is not its last attribute
+    '<mjml><mj-head><mj-attributes><mj-class name="promo" color="#ff0000" font-size="22px" font-weight="bold" /></mj-attributes></mj-head>'
+    '<mj-body><mj-section><mj-column><mj-text mj-class="promo">P</mj-text>' + SOC +
+    '<mj-accordion padding="7px" container-background-color="#eee"><mj-accordion-element><mj-accordion-title>T</mj-accordion-title>'
     '<mj-accordion-text>X</mj-accordion-text></mj-accordion-element></mj-accordion><mj-button href="https://x">Read <b>more</b>\n<i>now</i></mj-button>'
     '<mj-social><mj-social-element name="facebook">F <b>b</b></mj-social-element></mj-social><mj-table><tr><td class="k" style="padding:1px"> c </td></tr></mj-table>'
     '<mj-navbar><mj-navbar-link href="https://x">N</mj-navbar-link></mj-navbar></mj-column></mj-section></mj-body></mjml>')
